@@ -1,6 +1,6 @@
 (* C14 — layout trivia and source positions.  Property theorems only. *)
 From Coq Require Import List NArith Bool String Ascii.
-From RV Require Import Loc LocProofs Lexer LexerTrivia LexerTrivia2 LexerTrivia3 LexerTriviaNum LexerTrivia4 LexerTriviaFloat LexerNumTail LexerTrivia5 LexerTrivia6 GenLexer.
+From RV Require Import Loc LocProofs Lexer LexerTrivia LexerTrivia2 LexerTrivia3 LexerTriviaNum LexerTrivia4 LexerTriviaFloat LexerNumTail LexerTrivia5 LexerTrivia6 LexerTrivia7 LexerTrivia8 GenLexer.
 Import ListNotations.
 Local Open Scope N_scope.
 
@@ -432,6 +432,114 @@ Proof.
 Qed.
 Local Close Scope string_scope.
 
+Local Open Scope string_scope.
+(* ---- trivia at any number of token boundaries at once.  A text is described as a list of elements (`Good`): tokens, each
+        read the same in front of every character of a set that holds the character actually following it, and trivia
+        pieces.  Behind every token marked insertable any run of trivia pieces may be added (`Ins`) - at as many tokens
+        as one likes - and the file lexes to the same tokens that are not whitespace, whatever follows the described
+        text.  Words, operators and strings (insertable unless they begin with a slash), numeric literals of every form
+        (insertable) and `<` / `>` in front of a word or a blank (not insertable: the exception the property names) can be
+        elements (the C14_good_ theorems) ---- *)
+Theorem C14_trivia_at_many_boundaries_partial :
+  forall keywords reserved_words symbols int_suffixes float_suffixes float_is_zero utf8_ok nxt r0 es es' spans,
+    Good keywords reserved_words symbols int_suffixes float_suffixes float_is_zero utf8_ok nxt es -> Ins es es' ->
+    lex_file keywords reserved_words symbols int_suffixes float_suffixes float_is_zero utf8_ok (txt es ++ String nxt r0) = SOk spans ->
+    exists spans', lex_file keywords reserved_words symbols int_suffixes float_suffixes float_is_zero utf8_ok (txt es' ++ String nxt r0) = SOk spans' /\
+                   strip (toks spans') = strip (toks spans).
+Proof. exact trivia_at_many_boundaries. Qed.
+
+Theorem C14_good_solid :
+  forall keywords reserved_words symbols int_suffixes float_suffixes float_is_zero utf8_ok nxt c a' t ins es b,
+    tok_at keywords reserved_words symbols int_suffixes float_suffixes float_is_zero utf8_ok false (String c a' ++ b) = LOk t (slen (String c a')) ->
+    solid t = true -> follows_tok c (next_char nxt (txt es)) -> (ins = true -> Ascii.eqb c "/" = false) ->
+    Good keywords reserved_words symbols int_suffixes float_suffixes float_is_zero utf8_ok nxt es ->
+    Good keywords reserved_words symbols int_suffixes float_suffixes float_is_zero utf8_ok nxt (ETok c a' t ins :: es).
+Proof. exact good_solid. Qed.
+
+Theorem C14_good_number :
+  forall keywords reserved_words symbols int_suffixes float_suffixes float_is_zero utf8_ok nxt c a' t w0 r0 ins es,
+    suffixes_alpha_all int_suffixes = true -> fsuffixes_alpha float_suffixes = true ->
+    is_digit c = true -> stopb (String c a') w0 = true ->
+    tok_at keywords reserved_words symbols int_suffixes float_suffixes float_is_zero utf8_ok false (String c a' ++ String w0 r0) = LOk t (slen (String c a')) ->
+    stopb (String c a') (next_char nxt (txt es)) = true ->
+    Good keywords reserved_words symbols int_suffixes float_suffixes float_is_zero utf8_ok nxt es ->
+    Good keywords reserved_words symbols int_suffixes float_suffixes float_is_zero utf8_ok nxt (ETok c a' t ins :: es).
+Proof. exact good_number. Qed.
+
+Theorem C14_good_angle :
+  forall keywords reserved_words symbols int_suffixes float_suffixes float_is_zero utf8_ok nxt es,
+    Good keywords reserved_words symbols int_suffixes float_suffixes float_is_zero utf8_ok nxt es ->
+    (is_alpha_ (next_char nxt (txt es)) = true ->
+       Good keywords reserved_words symbols int_suffixes float_suffixes float_is_zero utf8_ok nxt (ETok "<" "" (TLAngle true) false :: es) /\
+       Good keywords reserved_words symbols int_suffixes float_suffixes float_is_zero utf8_ok nxt (ETok ">" "" (TRAngle true) false :: es)) /\
+    (blank (next_char nxt (txt es)) ->
+       Good keywords reserved_words symbols int_suffixes float_suffixes float_is_zero utf8_ok nxt (ETok "<" "" (TLAngle false) false :: es) /\
+       Good keywords reserved_words symbols int_suffixes float_suffixes float_is_zero utf8_ok nxt (ETok ">" "" (TRAngle false) false :: es)).
+Proof.
+  intros. split; intros; split.
+  - apply good_langle_word; assumption.
+  - apply good_rangle_word; assumption.
+  - apply good_langle_blank; assumption.
+  - apply good_rangle_blank; assumption.
+Qed.
+
+(* non-vacuity with the real tables: `if(i<n)x=x+0.5f;` described element by element, and trivia added behind eight of its
+   twelve tokens at once *)
+Definition ex_elems : list elem :=
+  [ETok "i" "f" (TKeyword "If") true; ETok "(" "" (TSym "LeftParen") true; ETok "i" "" (TId "i") true;
+   ETok "<" "" (TLAngle true) false; ETok "n" "" (TId "n") true; ETok ")" "" (TSym "RightParen") true;
+   ETok "x" "" (TId "x") true; ETok "=" "" (TSym "Equals") true; ETok "x" "" (TId "x") true;
+   ETok "+" "" (TSym "Plus") true; ETok "0" ".5f" (TFloat FFloat "0.5") true; ETok ";" "" (TSym "Semicolon") true].
+Definition ex_elems' : list elem :=
+  [ETok "i" "f" (TKeyword "If") true; ETriv " "; ETok "(" "" (TSym "LeftParen") true; ETriv ("/*" ++ "a" ++ "*/");
+   ETok "i" "" (TId "i") true;
+   ETok "<" "" (TLAngle true) false; ETok "n" "" (TId "n") true; ETriv " "; ETriv (String "009" "");
+   ETok ")" "" (TSym "RightParen") true; ETriv (String "010" "");
+   ETok "x" "" (TId "x") true; ETok "=" "" (TSym "Equals") true; ETriv ("//" ++ " b" ++ String "010" "");
+   ETok "x" "" (TId "x") true;
+   ETok "+" "" (TSym "Plus") true; ETriv (String "\" (String "010" "")); ETok "0" ".5f" (TFloat FFloat "0.5") true; ETriv ("/*" ++ "" ++ "*/"); ETriv " ";
+   ETok ";" "" (TSym "Semicolon") true; ETriv " "].
+Example C14_many_example_texts :
+  txt ex_elems = "if(i<n)x=x+0.5f;" /\
+  txt ex_elems' = "if (/*a*/i<n " ++ String "009" (")" ++ String "010" ("x=// b" ++ String "010" ("x+\" ++ String "010" "0.5f/**/ ; "))).
+Proof. split; reflexivity. Qed.
+Example C14_many_example_good :
+  Good keywords reserved_words symbols int_suffixes float_suffixes (fun _ => false) (fun _ => true) "010"%char ex_elems.
+Proof.
+  unfold ex_elems.
+  apply (good_solid _ _ _ _ _ _ _ _ _ _ _ _ _ " "); [vm_compute; reflexivity|reflexivity|split; intros; [reflexivity|discriminate]|discriminate + reflexivity + (intros; reflexivity)|].
+  apply (good_solid _ _ _ _ _ _ _ _ _ _ _ _ _ " "); [vm_compute; reflexivity|reflexivity|split; intros; [discriminate|repeat split; intros; try reflexivity; discriminate]|intros; reflexivity|].
+  apply (good_solid _ _ _ _ _ _ _ _ _ _ _ _ _ " "); [vm_compute; reflexivity|reflexivity|split; intros; [reflexivity|discriminate]|intros; reflexivity|].
+  apply good_langle_word; [reflexivity|].
+  apply (good_solid _ _ _ _ _ _ _ _ _ _ _ _ _ " "); [vm_compute; reflexivity|reflexivity|split; intros; [reflexivity|discriminate]|intros; reflexivity|].
+  apply (good_solid _ _ _ _ _ _ _ _ _ _ _ _ _ " "); [vm_compute; reflexivity|reflexivity|split; intros; [discriminate|repeat split; intros; try reflexivity; discriminate]|intros; reflexivity|].
+  apply (good_solid _ _ _ _ _ _ _ _ _ _ _ _ _ " "); [vm_compute; reflexivity|reflexivity|split; intros; [reflexivity|discriminate]|intros; reflexivity|].
+  apply (good_solid _ _ _ _ _ _ _ _ _ _ _ _ _ " "); [vm_compute; reflexivity|reflexivity|split; intros; [discriminate|repeat split; intros; try reflexivity; discriminate]|intros; reflexivity|].
+  apply (good_solid _ _ _ _ _ _ _ _ _ _ _ _ _ " "); [vm_compute; reflexivity|reflexivity|split; intros; [reflexivity|discriminate]|intros; reflexivity|].
+  apply (good_solid _ _ _ _ _ _ _ _ _ _ _ _ _ " "); [vm_compute; reflexivity|reflexivity|split; intros; [discriminate|repeat split; intros; try reflexivity; discriminate]|intros; reflexivity|].
+  apply (good_number _ _ _ _ _ _ _ _ _ _ _ " "%char ""); [vm_compute; reflexivity|vm_compute; reflexivity|reflexivity|reflexivity|vm_compute; reflexivity|reflexivity|].
+  apply (good_solid _ _ _ _ _ _ _ _ _ _ _ _ _ " "); [vm_compute; reflexivity|reflexivity|split; intros; [discriminate|repeat split; intros; try reflexivity; discriminate]|intros; reflexivity|].
+  apply GNil.
+Qed.
+Example C14_many_example_ins : Ins ex_elems ex_elems'.
+Proof.
+  unfold ex_elems, ex_elems'.
+  apply (ITok "i" "f" _ true _ _ [" "]); [constructor; [apply PBlank; left; reflexivity|constructor]|left; reflexivity|].
+  apply (ITok "(" "" _ true _ _ ["/*" ++ "a" ++ "*/"]); [constructor; [apply PBlock; reflexivity|constructor]|left; reflexivity|].
+  apply (ITok "i" "" _ true _ _ []); [constructor|right; reflexivity|].
+  apply (ITok "<" "" _ false _ _ []); [constructor|right; reflexivity|].
+  apply (ITok "n" "" _ true _ _ [" "; String "009" ""]); [constructor; [apply PBlank; left; reflexivity|constructor; [apply PBlank; right; left; reflexivity|constructor]]|left; reflexivity|].
+  apply (ITok ")" "" _ true _ _ [String "010" ""]); [constructor; [apply PBlank; right; right; reflexivity|constructor]|left; reflexivity|].
+  apply (ITok "x" "" _ true _ _ []); [constructor|right; reflexivity|].
+  apply (ITok "=" "" _ true _ _ ["//" ++ " b" ++ String "010" ""]); [constructor; [apply PLine; reflexivity|constructor]|left; reflexivity|].
+  apply (ITok "x" "" _ true _ _ []); [constructor|right; reflexivity|].
+  apply (ITok "+" "" _ true _ _ [String "\" (String "010" "")]); [constructor; [apply PSplice|constructor]|left; reflexivity|].
+  apply (ITok "0" ".5f" _ true _ _ ["/*" ++ "" ++ "*/"; " "]); [constructor; [apply PBlock; reflexivity|constructor; [apply PBlank; left; reflexivity|constructor]]|left; reflexivity|].
+  apply (ITok ";" "" _ true _ _ [" "]); [constructor; [apply PBlank; left; reflexivity|constructor]|left; reflexivity|].
+  apply INil.
+Qed.
+Local Close Scope string_scope.
+
 (* ---- non-vacuity ---- *)
 Example C14_example :
   let a := [105; 110; 116; 10] in           (* "int\n" *)
@@ -471,3 +579,7 @@ Print Assumptions C14_trivia_behind_a_number_partial.
 Print Assumptions C14_pre2_langle.
 Print Assumptions C14_pre2_rangle.
 Print Assumptions C14_pre2_angle_before_a_word.
+Print Assumptions C14_trivia_at_many_boundaries_partial.
+Print Assumptions C14_good_solid.
+Print Assumptions C14_good_number.
+Print Assumptions C14_good_angle.
